@@ -22,6 +22,7 @@ import asyncio
 import json
 import random
 import warnings
+from concurrent.futures import ThreadPoolExecutor
 from decimal import Decimal
 
 from .. import core
@@ -288,6 +289,218 @@ def _lit_error(text):
             return type(e).__name__
 
 
+# ---- sessions: sequences of renders in one process (spec/NativeSession.tla) ------------------
+# TLC enumerates every session (Render(text kind) / Mutate(result of step k)) and prints the expected
+# observation of each step; here each abstract session gets concrete texts, template shapes, entry
+# points and environments (seeded), is run on the real code and compared step by step.
+
+def session_cfg(max_steps, memoised=False):
+    return f"""CONSTANTS
+  MaxSteps = {max_steps}
+  Memoised = {"TRUE" if memoised else "FALSE"}
+SPECIFICATION Spec
+INVARIANT TypeOK
+INVARIANT C34_ValueOfOwnText
+INVARIANT C34_ResultsNotShared
+INVARIANT C34_TextIsText
+"""
+
+
+# item lists (PATTERNS notation) per text kind of the spec; n makes the text unique to its session
+SESSION_TEXTS = {
+    "mutable": [
+        lambda n: [("T", "["), ("V", n), ("T", ", "), ("V", 2), ("T", "]")],
+        lambda n: [("T", "["), ("V", n), ("T", ", "), ("S", "'a'"), ("T", "]")],
+        lambda n: [("T", "["), ("V", n), ("T", "]")],
+        lambda n: [("T", "{'k': "), ("V", n), ("T", "}")],
+        lambda n: [("T", "{'k': ["), ("V", n), ("T", ", 2], 'j': {}}")],
+        lambda n: [("T", "{ "), ("V", n), ("T", ", 2}")],
+        lambda n: [("T", "(["), ("V", n), ("T", "], 2)")],
+        lambda n: [("T", "[["), ("V", n), ("T", "], [2]]")],
+        lambda n: [("V", n), ("T", ", ["), ("V", 2), ("T", "]")],
+        lambda n: [("T", "["), ("S", str(n)), ("S", ", 3"), ("T", "]")],
+    ],
+    "imm": [
+        lambda n: [("V", n), ("T", ", "), ("V", 2)],
+        lambda n: [("T", "-"), ("V", n)],
+        lambda n: [("V", n), ("T", "."), ("V", 5)],
+        lambda n: [("T", "'"), ("S", "abc%d" % n), ("T", "'")],
+        lambda n: [("T", "("), ("V", n), ("T", ", None)")],
+    ],
+    "txt": [
+        lambda n: [("T", "x"), ("V", n)],
+        lambda n: [("T", "["), ("V", n), ("T", ", ")],
+        lambda n: [("V", n), ("T", " apples")],
+        lambda n: [("T", "[x, "), ("V", n), ("T", "]")],
+    ],
+}
+SESSION_SHAPES = ["items", "strvar", "loop", "split"]
+SESSION_MODES = ["sync.render", "async.render_async", "async.render"]
+_SESSION_TMPL = {}
+
+
+def shape_template(rng, shape, items):
+    """A template (source, JSON-able context) whose output text is the text of `items`."""
+    src, ctx = build(items)
+    text = "".join(str(it["value"]) for it in items)
+    if shape == "items":
+        return src, ctx, text
+    if shape == "loop":          # another template: the text arrives in chunks from a for loop
+        cuts = sorted(rng.sample(range(1, len(text)), min(len(text) - 1, rng.choice([0, 1, 2])))) if len(text) > 1 else []
+        chunks = [text[a:b] for a, b in zip([0] + cuts, cuts + [len(text)])]
+        return "{% for x in xs %}{{ x }}{% endfor %}", {"xs": chunks}, text
+    if shape == "split" and len(text) > 1:     # template data + one str-valued expression
+        i = rng.randrange(1, len(text))
+        head = text[:i]
+        if not any(m in head for m in ("{{", "{%", "{#")) and not head.endswith("{"):
+            return head + "{{ s }}", {"s": text[i:]}, text
+    return "{{ s }}", {"s": text}, text          # a single str-valued expression
+
+
+def session_render(step):
+    from jinja2.nativetypes import NativeEnvironment
+
+    is_async = step["mode"] != "sync.render"
+    if step["env"] == "new":
+        t = NativeEnvironment(enable_async=is_async).from_string(step["src"])
+    else:
+        key = (is_async, step["src"])
+        t = _SESSION_TMPL.get(key) if step["reuse"] else None
+        if t is None:
+            t = _SESSION_TMPL[key] = get_env(is_async, "none").from_string(step["src"])
+    if step["mode"] == "async.render_async":
+        return asyncio.run(t.render_async(**step["ctx"]))
+    return t.render(**step["ctx"])
+
+
+def mutables(v, acc):
+    """The mutable containers reachable from a literal value: {id: object} (the objects are kept,
+    so that an id stays theirs for the whole session even after a caller cleared the container)."""
+    if isinstance(v, (list, tuple)):
+        if isinstance(v, list):
+            acc[id(v)] = v
+        for x in v:
+            mutables(x, acc)
+    elif isinstance(v, dict):
+        acc[id(v)] = v
+        for x in v.values():
+            mutables(x, acc)
+    elif isinstance(v, set):
+        acc[id(v)] = v
+    return acc
+
+
+def mutate(v, style):
+    """What a caller may do with a value it was given: change every mutable container in place."""
+    if isinstance(v, (list, tuple)):
+        for x in v:
+            mutate(x, style)
+        if isinstance(v, list):
+            if style == "clear" and v:
+                v.clear()
+            else:
+                v.append("<changed>")
+    elif isinstance(v, dict):
+        for x in v.values():
+            mutate(x, style)
+        if style == "clear" and v:
+            v.clear()
+        else:
+            v["<changed>"] = 1
+    elif isinstance(v, set):
+        if style == "clear" and v:
+            v.clear()
+        else:
+            v.add("<changed>")
+
+
+def concretise(rng, session, n):
+    """Concrete steps for an abstract session printed by TLC (n: a number unique to this session)."""
+    pools = {"m1": ("mutable", 2 * n + 10), "m2": ("mutable", 2 * n + 11), "imm": ("imm", n + 3), "txt": ("txt", n + 3)}
+    chosen = {t: rng.choice(SESSION_TEXTS[k])(num) for t, (k, num) in pools.items()}
+    steps = []
+    for st in session:
+        if st["op"] == "mutate":
+            steps.append({"op": "mutate", "of": st["of"], "style": rng.choice(["grow", "clear"])})
+            continue
+        src, ctx, text = shape_template(rng, rng.choice(SESSION_SHAPES), pattern_items(chosen[st["text"]]))
+        steps.append({"op": "render", "src": src, "ctx": ctx, "text": text, "mode": rng.choice(SESSION_MODES),
+                      "env": rng.choice(["shared", "shared", "new"]), "reuse": rng.random() < 0.5,
+                      "abstract": st["text"], "expected": {"kind": st["kind"], "obj": st["obj"], "pristine": st["pristine"]}})
+    return steps
+
+
+def run_session(steps, stats=None):
+    """Run the steps on the real code; None if every step is as TLC printed it, else
+    (step number, what, tag)."""
+    results = {}
+    for k, st in enumerate(steps, 1):
+        if st["op"] == "mutate":
+            mutate(results[st["of"]][0], st["style"])
+            continue
+        exp = st["expected"]
+        lit, litval, determined = literalness(st["text"])
+        if not determined or lit != (exp["kind"] == "literal") or not exp["pristine"]:
+            raise core.MachineryError(f"session text {st['text']!r} does not fit the spec's text kind {st['abstract']}")
+        try:
+            got = session_render(st)
+        except Exception as e:  # noqa
+            return k, f"raises {type(e).__name__}: {e}", type(e).__name__
+        if stats is not None:
+            stats["renders"] += 1
+        if exp["kind"] == "text":
+            if not (isinstance(got, str) and got == st["text"]):
+                return k, f"returned {got!r} ({type(got).__name__}), documented: the text {st['text']!r}", "value"
+        else:
+            if not same_value(got, litval):
+                changed = [j for j, (r, _) in results.items() if r is got]
+                return (k, f"returned {got!r} ({type(got).__name__}), documented: the literal value {litval!r} of its own text {st['text']!r}"
+                        + (f" (it is the object returned by step {changed[0]}, which the caller changed meanwhile)" if changed else ""), "stale")
+            mine = mutables(got, {})
+            for j, (r, ids) in results.items():
+                if steps[j - 1]["expected"]["obj"] != exp["obj"] and mine.keys() & ids.keys():
+                    return (k, f"returned {got!r}, which shares a mutable object with the value returned by step {j}: "
+                            "a later change by either caller shows in the other's value", "shared")
+            results[k] = (got, mine)
+    return None
+
+
+def show_session(steps, upto):
+    out = []
+    for k, st in enumerate(steps[:upto], 1):
+        if st["op"] == "mutate":
+            out.append(f"{k}: caller changes the value of step {st['of']} in place ({st['style']})")
+        else:
+            out.append(f"{k}: {st['mode']} ({st['env']} environment) of {st['src']!r} with {st['ctx']!r}")
+    return "; ".join(out)
+
+
+def check_sessions(ck, r, variants, stats):
+    sessions = sorted({ln for ln in r.printed() if ln.startswith('{"session"')})
+    if len(sessions) < 50:
+        raise core.MachineryError("NativeSession.tla printed too few sessions")
+    rng = random.Random(ck.seed * 7919 + 17)
+    n = 0
+    for ln in sessions:
+        session = json.loads(ln)["session"]
+        for _ in range(variants):
+            n += 1
+            steps = concretise(rng, session, n)
+            bad = run_session(steps, stats)
+            stats["sessions"] += 1
+            if bad:
+                k, what, tag = bad
+                st = steps[k - 1]
+                ck.violation({"kind": "native-session", "steps": steps, "failed_step": k},
+                             f"NativeEnvironment, sequence of renders in one process [{show_session(steps, k)}]: step {k} {what}",
+                             {"kind": "native-session", "mode": st["mode"], "got": tag, "expected": st["expected"]["kind"]})
+            elif stats["sessions"] % 397 == 0:
+                ck.sample({"session": show_session(steps, len(steps)), "held": True})
+        if len(ck.violations) > 200:
+            break
+    return len(sessions)
+
+
 def load_table(r):
     table = {}
     for line in set(r.printed()):
@@ -304,6 +517,11 @@ def run(ck):
     load_local_findings(ck)
     quick = ck.tier == "quick"
     max_items = 4 if quick else 6
+    max_steps = 4 if quick else 6
+    bg = ThreadPoolExecutor(max_workers=2)
+    f_sess = bg.submit(core.run_tlc, PID, "NativeSession", session_cfg(max_steps), name="session", coverage=True, workers=1, timeout=3000)
+    f_memo = bg.submit(core.run_tlc, PID, "NativeSession", session_cfg(3, memoised=True), name="session-memoised", workers=1,
+                       args=["-continue"])
     r = core.run_tlc(PID, "Native", cfg(max_items), name="native", coverage=quick, workers=4, timeout=3000)
     ck.add_tlc(r, f"Native: all item sequences <= {max_items}")
     if quick:
@@ -343,6 +561,20 @@ def run(ck):
             check_case(ck, table, items, "none_to_empty", stats)
         if len(ck.violations) > 200:
             break
+    # sequences of renders in one process: what a render returns is the value of its own text
+    rs, rm = f_sess.result(), f_memo.result()
+    bg.shutdown()
+    ck.add_tlc(rs, f"NativeSession: all sessions of {max_steps} steps (render / caller mutates a returned value)")
+    ck.require_coverage(rs, ["Render", "Mutate", "Report"])
+    ck.tlc_runs.append({"spec": "NativeSession: parse results memoised per text (negative control)",
+                        "distinct_states": rm.distinct, "states_generated": rm.generated, "depth": rm.depth, "wall_s": round(rm.wall, 2)})
+    ck.extra["model_with_memoised_parse_violates"] = sorted(set(rm.invariant_violated))
+    if not {"C34_ValueOfOwnText", "C34_ResultsNotShared"} <= set(rm.invariant_violated):
+        raise core.MachineryError("NativeSession.tla: the memoising model should violate C34_ValueOfOwnText and C34_ResultsNotShared")
+    if rs.ok:
+        stats.update({"sessions": 0})
+        ck.extra["abstract_sessions_printed_by_tlc"] = check_sessions(ck, rs, 3 if quick else 2, stats)
+        ck.extra["sessions_run"] = stats["sessions"]
     ck.traces += stats["renders"]
     ck.evaluations += stats["renders"]
     ck.exhaustive = False
@@ -365,6 +597,12 @@ def run(ck):
 def replay(ck, rec):
     load_local_findings(ck)
     c = rec["case"]
+    if c.get("kind") == "native-session":
+        bad = run_session(c["steps"])
+        if bad:
+            k, what, _ = bad
+            ck.violation(c, f"still: [{show_session(c['steps'], k)}]: step {k} {what}", rec.get("fingerprint"))
+        return
     ctx = {}
     for k, v in c["context"].items():
         try:
